@@ -51,6 +51,10 @@ REQUIRED = [
     'wb_incomplete_never_claims_written_partial', 'wb_handed_only_when_complete_partial',
     'wb_no_written_pixel_lost_partial', 'wb_caller_file_complete_partial', 'hand_iff_shouldHand', 'lastOnly_is_unsound',
     'lastOnly_loses_rows',
+    # Props/C19Exist.lean - the existence check over what is at the path x check_existence
+    'e_refused_iff', 'e_default_is_checked', 'e_refusal_independent_of_content', 'e_empty_like_nonempty',
+    'e_refused_keeps_target', 'e_existing_kept_unless_disabled', 'e_clobber_only_if_disabled', 'e_enabled_keeps',
+    'e_agrees_with_winit', 'e_agrees_with_wbinit', 'size_sensitive_check_overwrites',
 ]
 
 # Bridge/Life.lean: the kernels regenerated from /repo (translate/gen_life.py) are the reference definitions
@@ -58,7 +62,8 @@ BRIDGE_MODULE, BRIDGE_NS = 'SarpyModel.Bridge.Life', 'Sarpy.Bridge.Life'
 BRIDGE_REQUIRED = [
     'gen_blockAggClaims', 'gen_blockAggClaims_read', 'gen_bandAggClaims', 'gen_arrayClaims', 'gen_subsetClaims',
     'gen_handDecision', 'gen_handGuards', 'gen_closeForces', 'gen_baseReaderInit', 'gen_handlers_register',
-    'gen_nitfReaderInit', 'code_block_claims_iff_all', 'code_ctor_registers_all', 'code_ctor_guarded',
+    'gen_nitfReaderInit', 'gen_nitfRefuses', 'gen_cphdRefuses', 'gen_sioRefuses', 'gen_checkDefaults', 'gen_checkPassedOn',
+    'code_refusal_ignores_size', 'code_block_claims_iff_all', 'code_ctor_registers_all', 'code_ctor_guarded',
     'code_flush_needs_claim',
 ]
 
@@ -792,28 +797,29 @@ class Refs:
 
     # ---- writers
     def make_writer(self, kind, shapes, target, check=True):
+        kw = {} if check is None else {'check_existence': check}       # None: the argument is not given (the default applies)
         if kind == 'NITF':
             from sarpy.io.general.nitf import NITFWriter
-            return NITFWriter(target, self.nitf_details(), check_existence=check)
+            return NITFWriter(target, self.nitf_details(), **kw)
         if kind == 'SICD':
             from sarpy.io.complex.sicd import SICDWriter
-            return SICDWriter(target, self.sicd(*shapes[0]), check_existence=check)
+            return SICDWriter(target, self.sicd(*shapes[0]), **kw)
         if kind == 'SIDD':
             from sarpy.io.product.sidd import SIDDWriter
-            return SIDDWriter(target, [self.sidd(r, c) for r, c in shapes], self.sicd(3, 2), check_existence=check)
+            return SIDDWriter(target, [self.sidd(r, c) for r, c in shapes], self.sicd(3, 2), **kw)
         if kind == 'CPHD':
             from sarpy.io.phase_history.cphd import CPHDWriter1
             meta = self.cphd(*shapes[0])
-            w = CPHDWriter1(target, meta, check_existence=check)
+            w = CPHDWriter1(target, meta, **kw)
             w.write_pvp_array(0, numpy.zeros((shapes[0][0], ), dtype=meta.PVP.get_vector_dtype()))
             return w
         if kind == 'SIO':
             from sarpy.io.complex.sio import SIOWriter
-            return SIOWriter(target, self.sicd(*shapes[0]), check_existence=check)
+            return SIOWriter(target, self.sicd(*shapes[0]), **kw)
         if kind == 'CRSD':
             from sarpy.io.received.crsd import CRSDWriter1
             meta = self.crsd(*shapes[0])
-            w = CRSDWriter1(target, meta, check_existence=check)
+            w = CRSDWriter1(target, meta, **kw)
             w.write_pvp_array(0, numpy.zeros((shapes[0][0], ), dtype=meta.PVP.get_vector_dtype()))
             return w
         raise Infra(kind)
@@ -943,8 +949,8 @@ def read_back(kind, path):
 def gen_writer_case(rng, kind=None, rewrite=False):
     kind = kind or rng.choice(WKINDS)
     shapes = [list(s) for s in rng.choice(WSHAPES[kind])]
-    tgt = rng.choice(['p0', 'p0', 'p1', 'm', 'm', 'r', 'r'])
-    check = rng.random() < 0.5 if tgt == 'p1' else rng.random() < 0.8
+    tgt = rng.choice(['p0', 'p0', 'p1', 'p2', 'm', 'm', 'r', 'r'])       # p1: an existing non-empty file, p2: an existing empty file
+    check = rng.random() < 0.5 if tgt in ('p1', 'p2') else rng.random() < 0.8
     n = rng.randint(1, 12)
     ops = []
     # a plan of chunks: mostly a (possibly incomplete) partition of the rows in random order
@@ -990,7 +996,8 @@ def gen_writer_case(rng, kind=None, rewrite=False):
 
 def writer_line(case):
     sh = ','.join(f'{r}x{c * (1 if case["kind"] == "SIDD" else 2)}' for r, c in case['shapes'])
-    return f"life W {case['target']} {int(case['check'])} {sh} | " + ' '.join(case['ops'])
+    tgt = 'p1' if case['target'] == 'p2' else case['target']        # the model does not look at the size of what exists (e_refusal_independent_of_content)
+    return f"life W {tgt} {int(case['check'])} {sh} | " + ' '.join(case['ops'])
 
 
 def leaves_of(seg):
@@ -1015,8 +1022,8 @@ def run_writer_case(case, scratch, refs, final_readback=True):
     if os.path.exists(path):
         os.remove(path)
     pre = None
-    if tgt == 'p1':
-        pre = b'PREEXISTING' * 5000
+    if tgt in ('p1', 'p2'):
+        pre = b'PREEXISTING' * 5000 if tgt == 'p1' else b''
         with _real_open(path, 'wb') as f:
             f.write(pre)
         os.utime(path, (1000000000, 1000000000))
@@ -1038,7 +1045,7 @@ def run_writer_case(case, scratch, refs, final_readback=True):
         if out != 'ok':
             # construction refused
             exc_classes[ecls] = 1
-            if not (tgt == 'p1' and case['check'] and ecls == 'SarpyIOError'):
+            if not (tgt in ('p1', 'p2') and case['check'] and ecls == 'SarpyIOError'):
                 fail('', f'construction raised {ecls} for target {tgt} check_existence={case["check"]}', -1)
             else:
                 st = os.stat(path)
@@ -1053,9 +1060,9 @@ def run_writer_case(case, scratch, refs, final_readback=True):
             if caller is not None:
                 caller.close()
             return ['refused'], fails, {'exc': exc_classes, 'refused': True}
-        if tgt == 'p1' and case['check']:
-            fail('', 'an existing path was accepted although check_existence=True', -1)
-        trace.append('init:%d' % int(tgt == 'p1'))
+        if tgt in ('p1', 'p2') and case['check']:
+            fail('', f"an existing {'empty ' if tgt == 'p2' else ''}file was accepted (and truncated) although check_existence=True", -1)
+        trace.append('init:%d' % int(tgt in ('p1', 'p2')))
         segs = list(w.data_segment)
         leaves = [leaves_of(s) for s in segs]
         nseg = len(segs)
@@ -1206,7 +1213,7 @@ def oracle_writer(case, ref, obs, final, other_open, path, fail, final_readback,
         if tgt in ('m', 'r') and not o['fileOpen']:
             key = K_CPHD_CLOSE if kind == 'CPHD' and closed_seen else ''
             fail(key, f"step {step} {op}: the caller's file object was closed by the writer", step, ['fileOpen'])
-        if tgt in ('p0', 'p1'):
+        if tgt in ('p0', 'p1', 'p2'):
             if closed_seen and o['fileOpen']:
                 fail(K_SIO_OPEN if kind == 'SIO' else '', f'step {step} {op}: the file the writer opened itself is still open after close', step, ['fileOpen'])
             if not closed_seen and not o['fileOpen']:
@@ -1341,8 +1348,12 @@ def run_case(case, scratch, refs):
             return run_reader_case(case, d, refs)
         if case['machine'] == 'S':
             return run_shared_case(case, d)
-        if case['machine'] in 'CBD':
+        if case['machine'] in 'CBDAE':
             import c19x
+            if case['machine'] == 'A':
+                return c19x.run_aggregate_case(case, d)
+            if case['machine'] == 'E':
+                return c19x.run_exist_case(case, d, refs)
             if case['machine'] == 'C':
                 return c19x.run_ctor_case(case, d, refs)
             if case['machine'] == 'D':
@@ -1356,6 +1367,10 @@ def run_case(case, scratch, refs):
 
 
 def case_class(case, info):
+    if case['machine'] == 'A':
+        return ('A', case['agg'], len(case['done']), sum(case['done']), bool(case['done'][-1]))
+    if case['machine'] == 'E':
+        return ('E', case['kind'], case['pre'], case['check'])
     if case['machine'] in 'CBD':
         ops = case['ops']
         first_close = next((i for i, o in enumerate(ops) if o in 'cxed'), None)
@@ -1462,6 +1477,10 @@ def case_line(c):
         return c19x.blocked_line(c)
     if m == 'D':
         return c19x.dag_line(c)
+    if m == 'E':
+        return c19x.exist_line(c)
+    if m == 'A':
+        return None      # goes to the driver of the regenerated kernels (its own process)
     return None
 
 
@@ -1478,6 +1497,10 @@ def case_name(c):
         return f"blocked:{c['kind']}:{c['target']}"
     if m == 'D':
         return 'dag:' + c['shape']
+    if m == 'A':
+        return 'aggregate:' + c['agg']
+    if m == 'E':
+        return 'existence-check:' + c['kind']
     return f"{c['kind']}:{c['target']}"
 
 
@@ -1520,7 +1543,9 @@ def run(tier):
     dag = [c19x.gen_dag_case(rng) for _ in range(nd)]
     for c in dag:
         c['ops'] = [(o if not (o[0] == 'r' and int(o[1:]) > 1) else 'r%d' % (int(o[1:]) % 2)) for o in c['ops']]
-    cases += ext + dag
+    agg_cases = c19x.gen_aggregate_cases()
+    exist_cases = c19x.gen_exist_cases(WKINDS)
+    cases += ext + dag + agg_cases + exist_cases
     if tier == 'thorough':
         cases += exhaustive_cases()
 
@@ -1534,9 +1559,28 @@ def run(tier):
     except Infra as e:
         ans = None
         broken.append('model driver does not build/run: ' + str(e)[:300])
+    # translator fidelity: Python originals / regenerated Lean / reference definitions on a small-scope enumeration
+    # (its own driver process: a Gen/Life.lean that does not build must not take the model driver down)
+    kreq = c19x.kernel_requests()
+    kdrv = Driver()
+    for line, _ in kreq:
+        kdrv.ask(line)
+    for c in agg_cases:
+        c['_k'] = kdrv.ask(c19x.aggregate_line(c))
+    for c in exist_cases:
+        c['_k'] = kdrv.ask(c19x.exist_gen_line(c))
+    kernel_dis, kernel_n, kans = [], 0, None
+    try:
+        kans = kdrv.run()
+        kernel_n, kernel_dis = c19x.kernel_threeway(kans, kreq)
+    except Infra as e:
+        if not bridge_broken:
+            broken.append('driver of the regenerated kernels does not build/run: ' + str(e)[:300])
+        chk.notes.append('regenerated kernels could not be run: ' + str(e)[:200])
 
     scratch = tempfile.mkdtemp(prefix='c19_', dir='/var/tmp')
     fails, disagreements = [], []
+    disagreements += [{'case': {'machine': 'K', 'ops': []}, 'msg': d['msg']} for d in kernel_dis]
     classes, exc_hist, kinds_hist = set(), {}, {}
     samples, wsamples, xsamples = [], [], {}
     masked_histories = 0
@@ -1570,6 +1614,17 @@ def run(tier):
                 fails.append(f)
             if any(f['key'] for f in fl):
                 masked_histories += 1
+            kq = c.pop('_k', None)
+            if c['machine'] == 'A' and kans is not None and kq is not None:
+                dis = c19x.compare_aggregate(kans[kq], trace)
+                if dis and not fl:
+                    disagreements.append({'case': c, 'msg': '; '.join(dis)})
+            if c['machine'] == 'E':
+                if ans is not None and q is not None:
+                    dis = c19x.compare_exist(ans[q], kans[kq] if (kans is not None and kq is not None) else None, trace)
+                    if dis and not fl:
+                        disagreements.append({'case': c, 'msg': '; '.join(dis)})
+                q = None
             if ans is not None and q is not None:
                 line = ans[q]
                 if line == 'bad-op':
@@ -1622,14 +1677,19 @@ def run(tier):
                 'chunks of a random grid in random / reverse / last-block-first order, histories up to 14 ops (<= 40 directed) with '
                 'non-forced flushes, out-of-range writes, every target; one directed history per configuration that completes every '
                 'block alone, last block first, with a flush after each chunk; readers sharing children (five DAG shapes) through the '
-                'tree unfolding; distinct = distinct (machine, object kind, node kinds or target, ownership options, order, '
+                'tree unfolding; hand-built Block / Band aggregates with every subset of 2-3 children completed; the existence check of '
+                'every path-taking writer family (NITF, SICD, SIDD, CPHD, CRSD, SIO) x {nothing, empty file, non-empty file, directory} '
+                'at the path x check_existence {not given, False, True}, and histories on an existing empty file next to the existing '
+                'non-empty one; distinct = distinct (machine, object kind, node kinds or target, ownership options, order, '
                 'complete?, rewritten?, closed?, use after close?, double close?, flush before close?, del?) tuples',
         'samples': samples + wsamples + [xsamples[k] for k in sorted(xsamples)],
-        'traces_validated_against_impl': sum(1 for c in cases if c['machine'] != 'S'),
+        'traces_validated_against_impl': sum(1 for c in cases if c['machine'] not in 'SA') + (len(agg_cases) if kans is not None else 0),
         'disagreements_checked': len(disagreements),
         'object_kinds': kinds_hist,
         'blocked_configurations': {k: v for k, v in cfgs.items()},
         'reader_construction': ctor_stats,
+        'regenerated_kernels_three_way_evaluations': kernel_n,
+        'regenerated_kernels_three_way_disagreements': len(kernel_dis),
         'caller_real_file_lags_until_caller_flush_after_close': lag,
         'exception_classes_seen': exc_hist,
         'histories_with_keyed_finding_masked_fields': masked_histories,
